@@ -152,12 +152,19 @@ type BoxDecoderSR func(hdr BoxHeader, startPos uint64, sw bits.SliceReader) (Box
 
 // DecodeBoxSR - decode a box from SliceReader
 func DecodeBoxSR(startPos uint64, sr bits.SliceReader) (Box, error) {
+	b, _, err := decodeBoxSRAndExtraHdr(startPos, sr)
+	return b, err
+}
+
+// decodeBoxSRAndExtraHdr decodes a box and also returns the number of header bytes in the input that are
+// not part of Size(): 8 for a non-mdat box with a 64-bit size field (see useCompactSize), otherwise 0.
+func decodeBoxSRAndExtraHdr(startPos uint64, sr bits.SliceReader) (Box, uint64, error) {
 	var err error
 	var b Box
 
 	h, err := DecodeHeaderSR(sr)
 	if err != nil {
-		return nil, err
+		return nil, 0, err
 	}
 
 	maxSize := uint64(sr.NrRemainingBytes()) + uint64(h.Hdrlen)
@@ -166,9 +173,11 @@ func DecodeBoxSR(startPos uint64, sr bits.SliceReader) (Box, error) {
 	// get the init part of a file. In the future, a new decode option that
 	// stops before the mdat starts is a better alternative.
 	if h.Size > maxSize && h.Name != "mdat" {
-		return nil, fmt.Errorf("decode box %q, size %d too big (max %d)", h.Name, h.Size, maxSize)
+		return nil, 0, fmt.Errorf("decode box %q, size %d too big (max %d)", h.Name, h.Size, maxSize)
 	}
+	extraHdr := uint64(h.Hdrlen)
 	h.useCompactSize()
+	extraHdr -= uint64(h.Hdrlen)
 
 	d, ok := decodersSR[h.Name]
 	payloadStart := sr.GetPos()
@@ -179,14 +188,14 @@ func DecodeBoxSR(startPos uint64, sr bits.SliceReader) (Box, error) {
 		b, err = d(h, startPos, sr)
 	}
 	if err != nil {
-		return nil, fmt.Errorf("decode %s pos %d: %w", h.Name, startPos, err)
+		return nil, 0, fmt.Errorf("decode %s pos %d: %w", h.Name, startPos, err)
 	}
 	// A box decoder must not read beyond the end of its box. Bytes of the box that it did not
 	// read are skipped, so that the next box starts where the size field says (as in DecodeBox).
 	if h.Name != "mdat" {
 		nrRead := sr.GetPos() - payloadStart
 		if nrRead > h.payloadLen() {
-			return nil, fmt.Errorf("decode %s pos %d: %d bytes read, but payload size is %d",
+			return nil, 0, fmt.Errorf("decode %s pos %d: %d bytes read, but payload size is %d",
 				h.Name, startPos, nrRead, h.payloadLen())
 		}
 		if nrRead < h.payloadLen() {
@@ -194,7 +203,7 @@ func DecodeBoxSR(startPos uint64, sr bits.SliceReader) (Box, error) {
 		}
 	}
 
-	return b, nil
+	return b, extraHdr, nil
 }
 
 // DecodeHeaderSR - decode a box header (size + box type + possible largeSize) from sr
@@ -238,7 +247,8 @@ LoopBoxes:
 			break LoopBoxes
 		}
 
-		box, err = DecodeBoxSR(boxStartPos, sr)
+		var extraHdr uint64 // Header bytes in the input that are not part of box.Size()
+		box, extraHdr, err = decodeBoxSRAndExtraHdr(boxStartPos, sr)
 		if err != nil {
 			return nil, err
 		}
@@ -288,7 +298,7 @@ LoopBoxes:
 		}
 		f.AddChild(box, boxStartPos)
 		lastBoxType = boxType
-		boxStartPos += boxSize
+		boxStartPos += boxSize + extraHdr
 	}
 	return f, nil
 }
